@@ -165,9 +165,9 @@ def print_assumptions(prop_file):
     return rc == 0, thms, sorted(set(axioms)), out
 
 
-def coqchk(prop_file, timeout=2400):
+def coqchk(prop_file, timeout=14400):
     """Independent re-check of a property file and everything it depends on (thorough tier).
-    Returns dict(ok, axioms, raw)."""
+    Returns dict(ok, axioms, raw).  Running out of time is reported as timed_out, not as a failed check."""
     mod = "Sctp." + os.path.basename(prop_file)[:-2]
     rc, out, dt = sh(["coqchk", "-silent", "-o", "-Q", "gen", "Sctp", "-Q", "model", "Sctp", "-Q", "proofs", "Sctp",
                       "-Q", "props", "Sctp", mod], cwd=COQ, timeout=timeout)
@@ -185,7 +185,7 @@ def coqchk(prop_file, timeout=2400):
                 axioms.append(t)
             elif "type-in-type" in sect or "unsafe" in sect or "positivity" in sect:
                 bad.append(sect + " " + t)
-    return dict(ok=(rc == 0 and not bad), axioms=axioms, bad=bad, raw=out[-1500:], wall=dt)
+    return dict(ok=(rc == 0 and not bad), timed_out=(rc == 124), axioms=axioms, bad=bad, raw=out[-1500:], wall=dt)
 
 
 # ---------------------------------------------------------------- extraction + comparator
